@@ -71,6 +71,8 @@ inductive Ev where
   | done (id : Nat) (ok : Bool)        -- SendRequest.complete(ok)
   | deliver (p : Bytes)                -- rx_queue.put(p)
   | pull (id : Nat) (n : Nat)          -- n values pulled from the generator of request id
+  | rx (t : Nat) (m : CanMsg)          -- rxfn returned m at time t
+  | rxNone (t : Nat)                   -- rxfn returned None at time t
   deriving DecidableEq, Repr, Inhabited
 
 /-- `n`-th byte of a list as a Nat (0 when absent; only used under a length guard). -/
